@@ -4,7 +4,11 @@
 // shard pool, statistics, violation collection and evidence writing.
 package engine
 
-import "fmt"
+import (
+	"fmt"
+	"sync/atomic"
+	"time"
+)
 
 // ReplayDivergence is the panic value used when a recorded prefix cannot be
 // replayed (the execution is not a deterministic function of its choices).
@@ -60,14 +64,36 @@ func (c *Chooser) Deviations() int {
 // Choices returns a copy of the choices taken.
 func (c *Chooser) Choices() []int { return append([]int(nil), c.Cs...) }
 
+// SoftDeadline (unix nanoseconds, 0 = none) is the time after which Explore
+// stops enumerating; Truncated counts the explorations that were cut short.
+var (
+	SoftDeadline atomic.Int64
+	Truncated    atomic.Int64
+)
+
 // Explore enumerates every execution of run that departs from the default
 // answers at no more than bound choice points. Executions always run to
 // completion. It returns the number of executions and the total number of
 // choice points met. run must be a deterministic function of the chooser.
+//
+// If SoftDeadline is set and has passed, the enumeration stops between two
+// executions; Truncated counts the explorations cut short this way (the run
+// is then reported as not exhaustive).
 func Explore(bound int, run func(c *Chooser)) (execs, points int64) {
 	var c Chooser
 	var rec func(prefix []int, used int)
+	stopped := false
 	rec = func(prefix []int, used int) {
+		if stopped {
+			return
+		}
+		if execs&63 == 63 {
+			if d := SoftDeadline.Load(); d != 0 && time.Now().UnixNano() > d {
+				stopped = true
+				Truncated.Add(1)
+				return
+			}
+		}
 		c.Reset(prefix)
 		run(&c)
 		execs++
